@@ -25,8 +25,15 @@ pub fn batches(prop: &str) -> Vec<Batch> {
         "C13" => vec![b("A", "mixed", 3000, 200_000), b("A", "restart", 500, 40_000)],
         "C20" => vec![b("A", "listing", 2000, 100_000)],
         "C18" => vec![b("A", "crash", 1500, 100_000), b("A", "restart-pair", 1000, 60_000), b("A", "images", 600, 30_000)],
-        "C05" => vec![b("A", "hostile", 3000, 200_000)],
-        "C08" => vec![b("A", "acl-http", 2000, 100_000)],
+        "C05" => vec![b("A", "hostile", 3000, 200_000), b("B", "hostile", 2500, 150_000)],
+        "C08" => vec![b("A", "acl-http", 2000, 100_000), b("B", "acl", 2500, 100_000)],
+        "C03" => vec![b("B", "basic", 2500, 120_000), b("B", "sizes", 1500, 60_000), b("B", "faulty", 1500, 60_000), b("B", "cache", 800, 30_000)],
+        "C04" => vec![b("B", "sizes", 3000, 120_000), b("B", "large", 400, 20_000), b("B", "basic", 1500, 60_000)],
+        "C06" => vec![b("B", "cache", 3000, 150_000)],
+        "C07" => vec![b("B", "basic", 2000, 100_000), b("B", "faulty", 3000, 150_000), b("B", "burst", 800, 40_000)],
+        "C14" => vec![b("B", "large", 500, 20_000), b("B", "sizes", 2000, 80_000)],
+        "C15" => vec![b("B", "routes", 3000, 160_000), b("B", "basic", 1000, 40_000)],
+        "C16" => vec![b("B", "flood", 1200, 60_000), b("B", "cookie", 1200, 60_000)],
         _ => vec![],
     }
 }
@@ -34,6 +41,7 @@ pub fn batches(prop: &str) -> Vec<Batch> {
 pub fn make_job(world: &str, shape: &'static str, seed: u64, thorough: bool) -> Job {
     match world {
         "A" => Job::A(crate::wa_plan::generate(seed, &crate::wa_plan::GenOpts { shape, thorough })),
+        "B" => Job::B(crate::wb_plan::generate(seed, &crate::wb_plan::GenB { shape, thorough })),
         _ => unreachable!(),
     }
 }
@@ -53,6 +61,14 @@ fn sample_of(job: &Job) -> serde_json::Value {
             "clients": p.clients.len(),
             "first_steps": v["A"]["steps"].as_array().map(|a| a.iter().take(6).cloned().collect::<Vec<_>>()),
             "steps": p.steps.len(),
+        }),
+        Job::B(p) => serde_json::json!({
+            "world": "B", "seed": p.seed, "shape": p.shape,
+            "config": p.yaml(),
+            "upstreams": p.upstreams, "upstream_tcp": p.upstream_tcp,
+            "queries": p.queries.len(),
+            "first_queries": v["B"]["queries"].as_array().map(|a| a.iter().take(3).cloned().collect::<Vec<_>>()),
+            "knobs": {"yield_p": p.yield_p, "out_loss_p": p.out_loss_p, "out_dup_p": p.out_dup_p, "qid_bits": p.qid_bits, "sndbuf": p.sndbuf, "max_seg": p.max_seg},
         }),
     }
 }
